@@ -14,6 +14,7 @@ import (
 
 	"github.com/marekgalovic/anndb/index"
 	"github.com/marekgalovic/anndb/index/space"
+	pb "github.com/marekgalovic/anndb/protobuf"
 	"github.com/marekgalovic/anndb/utils"
 
 	uuid "github.com/satori/go.uuid"
@@ -206,7 +207,7 @@ func coqSnapOf(d index.VerifIndexDump) string {
 
 func runC08(a *args) error {
 	r := newRng(a.seed)
-	st := newStats("index states built by 0..30 inserts/removes over 1..10 ids (levels 0..3, M in {1,2,3,16}, dims 1..4), ending empty in 1/6; metadata absent / 20-40 keys / keys and values incl. empty, 255-byte keys, 300- and 1000-byte values, non-UTF-8; each state saved without header; model decodes under 3 fragmentations and re-encodes; real Load through bytes.Buffer, one-byte reader and a random chunker into fresh and used indexes; non-trivial = >= 2 live items and >= 1 link or a removal; distinct by hash of the ops")
+	st := newStats("index states built by 0..30 inserts/removes over 1..10 ids (levels 0..3, M in {1,2,3,16}, dims 1..4), ending empty in 1/6; metadata absent / 20-40 keys / keys and values incl. empty, 255-byte keys, 300- and 1000-byte values, non-UTF-8; each state saved without header; model decodes under 3 fragmentations and re-encodes; real Load through bytes.Buffer, one-byte reader and a random chunker into fresh and used indexes, and through partition.processSnapshot into a partition holding 3 other items; non-trivial = >= 2 live items and >= 1 link or a removal; distinct by hash of the ops")
 	var cases []cdCase
 	if a.replay != "" {
 		var c cdCase
@@ -311,6 +312,35 @@ func runC08(a *args) error {
 					st.ImplFailures = append(st.ImplFailures, implFailure{Case: ci, What: fmt.Sprintf("%s (reader %d, used=%v)", what, ri, used),
 						Key: fmt.Sprintf("load-roundtrip:reader%d", ri), Input: *c})
 				}
+			}
+		}
+		// the same bytes arriving as a raft snapshot at a replica that already holds items (partition.processSnapshot)
+		{
+			dst := newSoloPartition(r, c.Dim, pb.Space_Euclidean)
+			for k := 0; k < 3; k++ {
+				dst.ds.VerifIndex(0).Insert(uuidFrom(r), f32bitsVec(genVec(r, c.Dim)), index.Metadata{"stale": "yes"}, k%2)
+			}
+			var rerr error
+			panicked, msg := recoverPanic(func() { rerr = dst.ds.VerifRestore(0, append([]byte(nil), c.Bytes...)) })
+			what := ""
+			if panicked || rerr != nil {
+				what = fmt.Sprintf("restoring the partition from the index's own output failed: %v %s", rerr, msg)
+			} else {
+				d2 := dst.ds.VerifIndex(0).VerifDump()
+				got, gotEntry := liveViewOf(d2)
+				switch {
+				case fmt.Sprint(got) != fmt.Sprint(want):
+					what = fmt.Sprintf("partition restore: %d items held afterwards, the snapshot has %d (stale or missing items/levels/links)", len(got), len(want))
+				case gotEntry != wantEntry:
+					what = fmt.Sprintf("partition restore: entry point %s, %s before save", gotEntry, wantEntry)
+				case d2.Len != d.Len || d2.BytesSize != wantBytes:
+					what = fmt.Sprintf("partition restore: counters Len=%d bytes=%d, saved state has Len=%d bytes=%d", d2.Len, d2.BytesSize, d.Len, wantBytes)
+				}
+			}
+			dst.close()
+			st.count("load:partition-restore:used=true")
+			if what != "" {
+				st.ImplFailures = append(st.ImplFailures, implFailure{Case: ci, What: what, Key: "load-roundtrip:partition", Input: *c})
 			}
 		}
 		st.Evaluations++
